@@ -1,20 +1,22 @@
 import OptunaVerif.Generated.Nsga2Src
 import OptunaVerif.Lemmas.Nsga2Mirror
 /-!
-# C13 (NSGA-II part) — what `_crowding_distance_sort` does under `maximize f` ≡ `minimize −f`
+# C13 (NSGA-II part) — `_crowding_distance_sort` under `maximize f` ≡ `minimize −f`
 
 The non-domination ranks are computed from direction-normalised values (`_rank_population`, C13's
 `normalised_component_symmetric`), the crowding distance from the RAW `trial.values`.  Mirroring a study therefore
 shows the crowding code a population with some objective columns negated (`flipInd mask`).  Proved here about
-`Model/Nsga2.lean` (exact instance):
+`Model/Nsga2.lean` (exact instance), for the code AFTER the repair of finding F-C13-1 (sort key `(-distance, number)`):
 
 * `crowding_contrib_mirror`            per objective and for EVERY column (ties, ±inf, NaN): the contributions by sorted
                                        position are exactly reversed
 * `crowding_distance_mirror`           columns without ties (C13's quantifier: pairwise distinct values): every
                                        individual keeps its distance, for every subset of negated objectives
-* `crowding_sorted_distances_mirror`   … hence the sequence of distances along the sorted front is the same; the two
-                                       orders can differ only inside classes of equal distance
-* `crowding_tie_order_not_symmetric`   and there they do differ: F-C13-1, the recorded witness (`decide`)
+* `crowding_sort_mirror`               … and the sorted front lists the same trials in the same order (all fronts)
+* `crowding_sorted_distances_mirror`   (corollary) same distance sequence along the two sorted fronts
+* `crowding_old_tie_order_not_symmetric`, `crowding_old_tie_order_three`   the code BEFORE the repair
+                                       (`crowdingSortOld`: sort by distance, reverse) ordered equal distances by the raw
+                                       last objective: the recorded witnesses, kept so that a revert is recognised
 * `crowding_column_tie_witness`        outside C13's quantifier: with a tie inside a column even the distances change
 -/
 namespace OptunaVerif.C13Nsga
@@ -84,27 +86,39 @@ theorem crowding_sorted_distances_mirror (mask : List Bool) (p0 : Ind XVal) (t :
   · rw [pairwise_map]
     refine hsB.imp ?_
     intro a b hab
-    rw [← hd a.number, ← hd b.number]; exact hab
-  · rw [pairwise_map]; exact hsA
+    rw [← hd a.number, ← hd b.number]; exact hab.1
+  · rw [pairwise_map]; exact hsA.imp (fun {a b} h => h.1)
   · have h1 := (hpB.map (fun x : Ind XVal => lookupD xnum x.number (calcCrowding xnum (p0 :: t)).2))
     have h2 := (hpA.map (fun x : Ind XVal => lookupD xnum x.number (calcCrowding xnum (p0 :: t)).2))
     refine h1.trans (Perm.trans ?_ h2.symm)
     rw [map_map]
     exact Perm.of_eq (map_congr_left (fun w _ => rfl))
 
-/-! ## what is NOT symmetric -/
+/-- **crowding_sort_mirror.**  Under the hypotheses of `crowding_distance_mirror` (no NaN, distinct numbers, no
+per-objective ties), for every subset of negated objectives `_crowding_distance_sort` lists the same trial numbers
+in the same order for the front and for its mirror image: the order is a function of (distance, number). -/
+theorem crowding_sort_mirror (mask : List Bool) (p0 : Ind XVal) (t : List (Ind XVal)) (hnn : NoNaNPop (p0 :: t))
+    (hnum : ((p0 :: t).map (·.number)).Nodup) (htf : ∀ i < p0.values.length, TieFree (p0 :: t) i) :
+    (crowdingSort xnum ((p0 :: t).map (flipInd mask))).map (·.number) = (crowdingSort xnum (p0 :: t)).map (·.number) :=
+  crowdingSort_mirror mask p0 t hnn hnum htf
+
+/-! ## what was NOT symmetric before the repair of F-C13-1 (`crowdingSortOld`) -/
 
 /-- the front {#0 = (0,0), #1 = (1,1)} of a study with directions (minimize, maximize) -/
 def witnessFront : List (Ind XVal) := [⟨0, [.fin 0, .fin 0], none, true, []⟩, ⟨1, [.fin 1, .fin 1], none, true, []⟩]
 
-/-- **crowding_tie_order_not_symmetric (F-C13-1).**  Both individuals of `witnessFront` are boundary individuals:
-distance `inf` in the study and in its mirror image (second objective negated) alike — `crowding_distance_mirror`
-applies.  But `_crowding_distance_sort` orders a class of equal distances by the position the LAST per-objective sort
-left them in, reversed: `[1, 0]` for the raw values, `[0, 1]` for the mirrored ones.  With `population_size = 2`
-… `individuals[:n]` and every parent drawn by index from the elite list differ between the two runs. -/
-theorem crowding_tie_order_not_symmetric :
-    (crowdingSort xnum witnessFront).map (·.number) = [1, 0] ∧
-    (crowdingSort xnum (witnessFront.map (flipInd [false, true]))).map (·.number) = [0, 1] ∧
+-- non-vacuity of `crowding_sort_mirror`: the witness front, both boundary individuals at distance inf: [0, 1] both ways
+example : (crowdingSort xnum witnessFront).map (·.number) = [0, 1] ∧
+    (crowdingSort xnum (witnessFront.map (flipInd [false, true]))).map (·.number) = [0, 1] := by
+  constructor <;> decide +kernel
+
+/-- **crowding_old_tie_order_not_symmetric (the former finding F-C13-1).**  Both individuals of `witnessFront` are
+boundary individuals: distance `inf` in the study and in its mirror image alike.  The OLD sort
+(`sort(key=distance); reverse()`) ordered a class of equal distances by the position the LAST per-objective sort left
+them in, reversed: `[1, 0]` for the raw values, `[0, 1]` for the mirrored ones. -/
+theorem crowding_old_tie_order_not_symmetric :
+    (crowdingSortOld xnum witnessFront).map (·.number) = [1, 0] ∧
+    (crowdingSortOld xnum (witnessFront.map (flipInd [false, true]))).map (·.number) = [0, 1] ∧
     (calcCrowding xnum witnessFront).2 = [(0, .pinf), (1, .pinf)] ∧
     (∀ i < 2, TieFree witnessFront i) := by
   refine ⟨by decide +kernel, by decide +kernel, by decide +kernel, ?_⟩
@@ -112,14 +126,18 @@ theorem crowding_tie_order_not_symmetric :
   have : i = 0 ∨ i = 1 := by omega
   rcases this with rfl | rfl <;> (unfold TieFree; decide +kernel)
 
-/-- … the same with three trials on a line: #0 and #2 tie at `inf`, #1 has distance 2 in both runs; the raw run lists
-`[2, 0, 1]`, the mirrored one `[0, 2, 1]`. -/
-theorem crowding_tie_order_three :
-    (crowdingSort xnum [⟨0, [.fin 0, .fin 0], none, true, []⟩, ⟨1, [.fin 1, .fin 1], none, true, []⟩,
+/-- … the same with three trials on a line: #0 and #2 tie at `inf`, #1 has distance 2 in both runs; the old sort
+listed `[2, 0, 1]` for the raw values and `[0, 2, 1]` for the mirrored ones; the repaired one `[0, 2, 1]` both ways. -/
+theorem crowding_old_tie_order_three :
+    (crowdingSortOld xnum [⟨0, [.fin 0, .fin 0], none, true, []⟩, ⟨1, [.fin 1, .fin 1], none, true, []⟩,
         ⟨2, [.fin 2, .fin 2], none, true, []⟩]).map (·.number) = [2, 0, 1] ∧
+    (crowdingSortOld xnum ([⟨0, [.fin 0, .fin 0], none, true, []⟩, ⟨1, [.fin 1, .fin 1], none, true, []⟩,
+        ⟨2, [.fin 2, .fin 2], none, true, []⟩].map (flipInd [false, true]))).map (·.number) = [0, 2, 1] ∧
+    (crowdingSort xnum [⟨0, [.fin 0, .fin 0], none, true, []⟩, ⟨1, [.fin 1, .fin 1], none, true, []⟩,
+        ⟨2, [.fin 2, .fin 2], none, true, []⟩]).map (·.number) = [0, 2, 1] ∧
     (crowdingSort xnum ([⟨0, [.fin 0, .fin 0], none, true, []⟩, ⟨1, [.fin 1, .fin 1], none, true, []⟩,
         ⟨2, [.fin 2, .fin 2], none, true, []⟩].map (flipInd [false, true]))).map (·.number) = [0, 2, 1] := by
-  constructor <;> decide +kernel
+  refine ⟨?_, ?_, ?_, ?_⟩ <;> decide +kernel
 
 /-- **crowding_column_tie_witness** (outside C13's quantifier, which asks for pairwise distinct values): when two
 individuals share a value in an objective, which of them gets the larger contribution depends on the order the
@@ -139,11 +157,11 @@ theorem crowding_column_tie_witness :
 under test that the theorems of this file speak about, as they were when `Model/Nsga2.lean` was written -/
 def modelledKeys : List (String × Nat) := [
   ("optuna/samplers/nsgaii/_elite_population_selection_strategy.py :: _calc_crowding_distance", 60815413682515448),
-  ("optuna/samplers/nsgaii/_elite_population_selection_strategy.py :: _crowding_distance_sort", 535650773810886016),
+  ("optuna/samplers/nsgaii/_elite_population_selection_strategy.py :: _crowding_distance_sort", 458905545629052035),
   ("optuna/samplers/nsgaii/_elite_population_selection_strategy.py :: _rank_population", 645381497369769622)
 ]
 
-/-- **modelled_source_unchanged.**  `_calc_crowding_distance`, `_crowding_distance_sort` and `_rank_population` are the functions the symmetry statements were proved about (an edit — e.g. a repair of F-C13-1 — breaks this obligation and the model has to follow). -/
+/-- **modelled_source_unchanged.**  `_calc_crowding_distance`, `_crowding_distance_sort` and `_rank_population` are the functions the symmetry statements were proved about, in the state after the repair of F-C13-1 (sort key `(-distance, number)`); an edit — e.g. a revert of that repair — breaks this obligation. -/
 theorem modelled_source_unchanged :
     modelledKeys.all (fun p => Generated.Nsga2Src.keyOf p.1 == p.2) = true := by decide
 
